@@ -1225,6 +1225,17 @@ func genC15(g *G) {
 			}
 		}
 	}
+	// g2. the snap-level byte of every compressed polygon (offset 1): values beyond MaxLevel incl. those with the high bit set
+	// (a signed read of this byte turns them into negative levels — seeded change C15_7)
+	for _, b := range bases {
+		if b.typ == "polygon" && len(b.data) > 2 && b.data[0] == 4 {
+			for _, v := range []byte{31, 32, 64, 127, 128, 129, 158, 200, 255} {
+				d := append([]byte{}, b.data...)
+				d[1] = v
+				em.emit("g:snap-level", b.typ, d)
+			}
+		}
+	}
 	// h. lossless polygons with several loops: a failure INSIDE a nested loop that is not an I/O error (every single-bit flip of
 	// the loop's version byte; vertex count above the limit) while plenty of bytes follow — the polygon decoder must fail as a
 	// whole and must not go on reading (seeded change C15_2: a reader that forgets its sticky error)
